@@ -450,7 +450,9 @@ def _guarded(ctx, fn):
             ctx.stats.errors.append("decision bound exceeded on a path whose condition is %s" % r)
         raise PathAbort()
     except PathAbort:
-        if ctx.pos > 0:
+        # an abort after a feasibility 'unknown' on this path only resolves that unknown (the branch was assumed feasible
+        # and is now proved infeasible); without one, the margin bands themselves emptied the path: report it
+        if ctx.pos > 0 and ctx.stats.feas_unknown == _STATE.get("fu0", 0):
             ctx.stats.errors.append("path became infeasible under the margin policy after %d decisions" % ctx.pos)
         raise
     finally:
@@ -637,31 +639,49 @@ def _dataset_pieces(data, region):
 
 
 def _linear_objs(aa, mask, dataset, objs, mesh):
+    """objs: 'funcs' (two function lists), 'rect' (one rectangular mapper) or a '+'-joined order such as 'func+rect',
+    'func+rect+func2' (mapper preceded / surrounded by function lists, so its parameters start at an offset)"""
+    class Lin(aa.AbstractLinearObjFuncList):
+        def __init__(self, grid, M):
+            super().__init__(grid=grid, regularization=None)
+            self._M = np.array(M, dtype=float)
+
+        @property
+        def params(self):
+            return self._M.shape[1]
+
+        @property
+        def mapping_matrix(self):
+            return self._M
+
+    def mapper():
+        shape = tuple(mesh)
+        os_ = aa.OverSamplerUniform(mask=mask, sub_size=SUB_SIZE)
+        grid = os_.over_sampled_grid
+        mesh_grid = aa.Mesh2DRectangular.overlay_grid(grid=grid, shape_native=shape)
+        mg = aa.MapperGrids(mask=mask, source_plane_data_grid=grid, source_plane_mesh_grid=mesh_grid,
+                            image_plane_mesh_grid=None, adapt_data=None)
+        return aa.MapperRectangular(mapper_grids=mg, over_sampler=os_, border_relocator=None,
+                                    regularization=aa.reg.Constant(coefficient=1.0)), shape
+
+    grid = dataset.grids.uniform
     if objs == "funcs":
-        class Lin(aa.AbstractLinearObjFuncList):
-            def __init__(self, grid, M):
-                super().__init__(grid=grid, regularization=None)
-                self._M = np.array(M, dtype=float)
-
-            @property
-            def params(self):
-                return self._M.shape[1]
-
-            @property
-            def mapping_matrix(self):
-                return self._M
-
-        grid = dataset.grids.uniform
         return [Lin(grid, FUNC_M1), Lin(grid, FUNC_M2)], [None, None]
-    shape = tuple(mesh)
-    os_ = aa.OverSamplerUniform(mask=mask, sub_size=SUB_SIZE)
-    grid = os_.over_sampled_grid
-    mesh_grid = aa.Mesh2DRectangular.overlay_grid(grid=grid, shape_native=shape)
-    mg = aa.MapperGrids(mask=mask, source_plane_data_grid=grid, source_plane_mesh_grid=mesh_grid,
-                        image_plane_mesh_grid=None, adapt_data=None)
-    mapper = aa.MapperRectangular(mapper_grids=mg, over_sampler=os_, border_relocator=None,
-                                  regularization=aa.reg.Constant(coefficient=1.0))
-    return [mapper], [shape]
+    out, shapes = [], []
+    for name in objs.split("+"):
+        if name == "rect":
+            m, shp = mapper()
+            out.append(m)
+            shapes.append(shp)
+        elif name == "func":
+            out.append(Lin(grid, FUNC_M2))
+            shapes.append(None)
+        elif name == "func2":
+            out.append(Lin(grid, [[r[1]] for r in FUNC_M1]))
+            shapes.append(None)
+        else:
+            raise ValueError(name)
+    return out, shapes
 
 
 def _reference_system(mask_arr, noise2d, lin_objs, data):
@@ -712,16 +732,21 @@ def _edge_ids(shape):
 
 
 def _forced_ids(shapes, edge, zero_pixels, lin_objs):
-    """parameters the settings force to zero: mesh pixels on the outer ring of the rectangular mesh and (if image
-    pixels are listed) every mesh pixel one of those image pixels maps to"""
-    if not edge or shapes[0] is None:
+    """parameters the settings force to zero, in GLOBAL parameter indices (offset of each mapper = number of parameters
+    of the linear objects before it): mesh pixels on the outer ring of every rectangular mesh and (if image pixels are
+    listed) every mesh pixel one of those image pixels maps to"""
+    if not edge:
         return []
-    forced = set(_edge_ids(shapes[0]))
-    if zero_pixels:
-        M = np.array(hx.unwrap(lin_objs[0].mapping_matrix), dtype=float)
-        for j in range(M.shape[1]):
-            if any(M[k, j] != 0.0 for k in zero_pixels):
-                forced.add(j)
+    forced, off = set(), 0
+    for obj, shp in zip(lin_objs, shapes):
+        M = np.array(hx.unwrap(obj.mapping_matrix), dtype=float)
+        if shp is not None:
+            forced.update(off + j for j in _edge_ids(shp))
+            if zero_pixels:
+                for j in range(M.shape[1]):
+                    if any(M[k, j] != 0.0 for k in zero_pixels):
+                        forced.add(off + j)
+        off += M.shape[1]
     return sorted(forced)
 
 
@@ -955,7 +980,8 @@ BOUNDS = {
              "formalisms; two linear-function objects; two successive inversions sharing one Preloads.curvature_matrix); positive-only "
              "solver with 2-3 image values symbolic and the others a fixed signed pattern: two linear-function objects (n=3, cold and warm), "
              "rectangular 3x5 mesh with force_edge_pixels_to_zeros (3 free parameters; mapping+cold, w_tilde+warm, Preloads history, "
-             "force_edge_image_pixels_to_zeros). Strongly correlated systems: 3 SPD matrices of n=5 (nearly collinear columns, condition "
+             "force_edge_image_pixels_to_zeros); mapper preceded / surrounded by function lists ([func, mapper], [func, mapper, func], 3x3 mesh) "
+             "with edge forcing and with image_pixels_source_zero, both formalisms. Strongly correlated systems: 3 SPD matrices of n=5 (nearly collinear columns, condition "
              "numbers 1.5e3-7e3, entries on a 1/64 grid) with the right-hand side restricted to affine families b = b0 + sum t_k e_i, "
              "t_k symbolic in [-4,4], through a noise-like b0: all 5 coordinate segments (cold; 3 warm) per matrix and the plane (e_0,e_3) "
              "for two matrices (the full box is beyond nlsat for such matrices). Every solver comparison forks (decision margin 2^-30).",
@@ -1028,7 +1054,7 @@ def cases(tier):
             for mode in ("cold", "warm"):
                 out.append(("case_solver", {"A": A, "mode": mode}, {"split": 4}))
     # --- strongly correlated n = 5 systems, right-hand side in low-dimensional affine families through b0
-    deep = {"max_decisions": 400}
+    deep = {"max_decisions": 400, "timeout_ms": 60000 if thorough else 20000}
     for e in CORR5:
         Mm = np.array(e["A"])
         assert np.array_equal(Mm, Mm.T) and np.linalg.eigvalsh(Mm).min() > 1e-3, "CORR5 must be SPD"
@@ -1070,7 +1096,15 @@ def cases(tier):
     out.append(("case_inversion", _inv((3, 3), [3, 4], "rect", (3, 5), True, True, True, True)))
     out.append(("case_inversion", _inv((3, 3), [3, 4], "rect", (3, 5), False, True, False, True, history=2)))
     out.append(("case_inversion", _inv((3, 3), [3, 4], "rect", (3, 5), True, True, True, True, zero_pixels=[5])))
+    # mapper preceded / surrounded by function lists (its parameters start at an offset): both forcing mechanisms
+    out.append(("case_inversion", _inv((3, 3), [3, 4], "func+rect", (3, 3), False, True, False, True)))
+    out.append(("case_inversion", _inv((3, 3), [3, 4], "func+rect", (3, 3), True, True, True, True, zero_pixels=[4])))
+    out.append(("case_inversion", _inv((3, 3), [3, 4, 5], "func+rect+func2", (3, 3), False, True, False, True, zero_pixels=[4])))
+    out.append(("case_inversion", _inv((3, 3), [3, 4, 5], "func+rect+func2", (3, 3), True, True, True, True)))
     if thorough:
+        for wt in (False, True):
+            out.append(("case_inversion", _inv((3, 3), [3, 4, 5], "func+rect", (3, 5), wt, True, not wt, True, zero_pixels=[4]), sp))
+            out.append(("case_inversion", _inv((3, 3), [3, 4, 5], "func+rect+func2", (3, 5), wt, True, wt, True, zero_pixels=[3, 4]), sp))
         for warm in (False, True):
             out.append(("case_inversion", _inv((3, 3), [3, 2, 4], "funcs", None, False, True, warm, True), sp))
             for wt in (False, True):
